@@ -49,6 +49,11 @@ Inductive case :=
         1 = Verify / verifySignature succeed, 2 = they fail *)
 | CVerify (rtab : list (bytes * bytes * option bytes)) (htab : list (bytes * bytes))
           (from_contract : bool) (from_id : bytes) (sig : bytes) (id : bytes) (res : N)
+(* a JSON submission whose id the model computes itself: from_json decides
+   struct path / raw fallback (is_raw) and gives the id; verify is evaluated on
+   that id.  res as above (0 = not accepted as a transaction). *)
+| CVerifyTx (rtab : list (bytes * bytes * option bytes)) (htab btab : list (bytes * bytes))
+            (m : list (bytes * json)) (is_raw : bool) (idobs : bytes) (res : N)
 (* crypto.ParseSignature(b) and crypto.ParseSignatureVRS(b):
    None = error, Some (HasV, SerializeRS, SerializeRSV, SerializeVRS) *)
 | CSig (b : bytes) (rsv : sig_obs) (vrs : sig_obs)
@@ -66,6 +71,20 @@ Definition check (c : case) : bool :=
           | VOk => res =? 1
           | _ => res =? 2
           end
+      end
+  | CVerifyTx rtab htab btab m is_raw idobs res =>
+      let H := Htab htab in
+      match from_json H (fun s => tab_lookup s btab) (JObj m) with
+      | Ok t =>
+          Bool.eqb (match t with TxRaw _ _ => true | TxStruct _ => false end) is_raw
+          && bytes_eqb (id H t) idobs
+          && match verify H (fun a b => rec_lookup a b rtab) (fields t) true (id H t) with
+             | VOk => res =? 1
+             | _ => res =? 2
+             end
+      | Reject => res =? 0
+      | NotV3 => false
+      | Unsup => true
       end
   | CSig b rsv vrs =>
       sig_obs_eqb (sig_obs_of (if is_nil b then None else parse_signature b)) rsv
